@@ -42,17 +42,11 @@ def is_type_error(ret):
     return n.startswith('Expected') or n in ('WrongTypeCombination', 'TypeError')
 
 
-def run(ctx):
-    prog = ctx.prog()
-    ctx.trust('rustc nightly MIR of /repo; i64::checked_*, f64 arithmetic and comparison (std)')
-    f = prog.fn('operator::Operator::<NumericTypes>::eval')
-    if f is None:
-        ctx.unrecognised('R3', 'Operator::eval', 'missing', 'not found')
-        return
+def make_runner(prog, f):
+    """(operator adt, value adt, value type names, V, F, run_arm): abstract operands and the per-arm path enumerator of Operator::eval"""
     op = prog.adt(tables.OPERATOR)
     val = prog.adt(tables.VALUE)
     types = [v['name'] for v in val['variants']]
-    ctx.floor('R3', 'value_types', len(types), 6)
 
     def V(name, sym):
         v = [x for x in val['variants'] if x['name'] == name][0]
@@ -73,6 +67,18 @@ def run(ctx):
     def run_arm(k, operands):
         v = [x for x in op['variants'] if x['name'] == k][0]
         return Interp(prog, hook=hook, max_depth=4).paths(f, [ADT(op['path'], v['idx'], k, []), ('tuple', tuple(operands)), SYM('ctx')])
+    return op, val, types, V, F, run_arm
+
+
+def run(ctx):
+    prog = ctx.prog()
+    ctx.trust('rustc nightly MIR of /repo; i64::checked_*, f64 arithmetic and comparison (std)')
+    f = prog.fn('operator::Operator::<NumericTypes>::eval')
+    if f is None:
+        ctx.unrecognised('R3', 'Operator::eval', 'missing', 'not found')
+        return
+    op, val, types, V, F, run_arm = make_runner(prog, f)
+    ctx.floor('R3', 'value_types', len(types), 6)
     n_cases = 0
     # ---- binary operators
     for k in tables.BINARY:
